@@ -6,6 +6,7 @@ import (
 	"os"
 	"path/filepath"
 	"sort"
+	"time"
 
 	badger "github.com/dgraph-io/badger/v4"
 	"github.com/dgraph-io/badger/v4/pb"
@@ -116,10 +117,64 @@ func streamIn(sw *badger.StreamWriter, r *rand.Rand, ents []swEntry, nStreams in
 	return nil
 }
 
+// streamInConcurrent: StreamWriter.Write is documented as safe for concurrent use. One goroutine per
+// stream sends its whole contiguous range as a single batch; the first range holds ~90% of the
+// entries, so the small batches run to completion while the large one is still being decoded.
+func streamInConcurrent(sw *badger.StreamWriter, ents []swEntry, nStreams int) error {
+	if nStreams < 2 {
+		nStreams = 2
+	}
+	cut := len(ents) * 9 / 10
+	bounds := []int{0}
+	for s := 0; s < nStreams-1; s++ {
+		b := cut + s*(len(ents)-cut)/(nStreams-1)
+		for b < len(ents) && b > 0 && ents[b].key == ents[b-1].key {
+			b++
+		}
+		if b > bounds[len(bounds)-1] && b < len(ents) {
+			bounds = append(bounds, b)
+		}
+	}
+	bounds = append(bounds, len(ents))
+	errs := make(chan error, len(bounds))
+	start := make(chan struct{})
+	for s := 0; s+1 < len(bounds); s++ {
+		go func(s int) {
+			buf := z.NewBuffer(1<<16, "verif")
+			defer func() { _ = buf.Release() }()
+			for _, e := range ents[bounds[s]:bounds[s+1]] {
+				kv := &pb.KV{Key: []byte(e.key), Version: e.ver.Ts, StreamId: uint32(s + 1), ExpiresAt: e.ver.ExpiresAt}
+				if e.ver.Del {
+					kv.Meta = []byte{badger.VerifBitDelete}
+				} else {
+					kv.Value = e.ver.Value()
+				}
+				if e.ver.UserMeta != 0 {
+					kv.UserMeta = []byte{e.ver.UserMeta}
+				}
+				badger.KVToBuffer(kv, buf)
+			}
+			<-start
+			if s > 0 {
+				time.Sleep(time.Duration(s) * 300 * time.Microsecond) // the large batch is under way
+			}
+			errs <- sw.Write(buf)
+		}(s)
+	}
+	close(start)
+	var first error
+	for s := 0; s+1 < len(bounds); s++ {
+		if err := <-errs; err != nil && first == nil {
+			first = err
+		}
+	}
+	return first
+}
+
 // C26 StreamWriter builds exactly the streamed database.
 func C26(c *core.Ctx) {
 	c.Rule("generated sorted entry sets (hostile keys, 1-3 versions per key newest first, deletes, past/future expiry, user meta, value sizes around the threshold) are cut into " +
-		"1-8 contiguous streams and written with random batching, interleaved stream ids and optional done markers through Prepare (fresh or previously filled database) or " +
+		"1-8 contiguous streams and written with random batching, interleaved stream ids and optional done markers (every fourth run: 3000-6000 keys, one goroutine per stream calling Write concurrently, one large and several small batches) through Prepare (fresh or previously filled database) or " +
 		"PrepareIncremental (1-3 incremental runs with increasing versions on top of existing data), in normal and managed mode, plain/compressed/encrypted; after Flush and " +
 		"again after re-open the full state incl. AllVersions must equal the streamed entries (+ pre-existing data for incremental runs), the structure validator (C14) must pass, " +
 		"and in normal mode a new commit must get a version above every streamed version (C11 oracle); distinct = (mode, prepare kind, options, streams, done markers) classes")
@@ -130,10 +185,14 @@ func C26(c *core.Ctx) {
 	for i := 0; i < n; i++ {
 		managed := i%2 == 0
 		incremental := i%3 == 1
+		concurrent := i%8 == 5 || i%8 == 2 // Write called from one goroutine per stream
 		dir := filepath.Join(work, fmt.Sprintf("sw%d", i))
 		_ = os.MkdirAll(dir, 0o755)
 		opt, name := drvOptions(dir, i)
 		opt.NumVersionsToKeep = 1 << 30
+		// compaction is disabled here; incremental rounds may place many tables on L0, which must not
+		// stall the final memtable flush forever
+		opt.NumLevelZeroTablesStall = 1 << 20
 		sizes := []int{0, 10, int(opt.ValueThreshold) - 1, int(opt.ValueThreshold), int(opt.ValueThreshold) + 1, 700}
 		db, err := openDB(opt, managed)
 		if err != nil {
@@ -142,7 +201,7 @@ func C26(c *core.Ctx) {
 		}
 		c.Eval(1)
 		m := model.New()
-		info := map[string]any{"options": name, "managed": managed, "incremental": incremental}
+		info := map[string]any{"options": name, "managed": managed, "incremental": incremental, "concurrent_writes": concurrent}
 		fail := func(sig, what string) {
 			c.Violation("C26|"+sig, what, info)
 		}
@@ -173,7 +232,20 @@ func C26(c *core.Ctx) {
 		}
 		for round := 0; round < rounds && ok; round++ {
 			lo := uint64(10 + 100*round)
-			ents := genStreamData(r, 5+r.Intn(150), lo, lo+90, fmt.Sprintf("s%d.", round), sizes)
+			nk := 5 + r.Intn(150)
+			if concurrent {
+				nk = 3000 + r.Intn(3000)
+			}
+			ents := genStreamData(r, nk, lo, lo+90, fmt.Sprintf("s%d.", round), sizes)
+			if concurrent {
+				// the globally newest version sits in one of the small trailing ranges
+				for j := len(ents) - 1 - r.Intn(len(ents)/20); j >= 0; j-- {
+					if j == 0 || ents[j-1].key != ents[j].key {
+						ents[j].ver.Ts = lo + 95
+						break
+					}
+				}
+			}
 			sw := db.NewStreamWriter()
 			if incremental {
 				err = sw.PrepareIncremental()
@@ -185,7 +257,12 @@ func C26(c *core.Ctx) {
 				ok = false
 				break
 			}
-			if err := streamIn(sw, r, ents, nStreams, done); err != nil {
+			if concurrent {
+				err = streamInConcurrent(sw, ents, nStreams)
+			} else {
+				err = streamIn(sw, r, ents, nStreams, done)
+			}
+			if err != nil {
 				fail("write", err.Error())
 				sw.Cancel()
 				ok = false
@@ -212,6 +289,10 @@ func C26(c *core.Ctx) {
 		}
 		if ok {
 			check("after-flush")
+			if !managed && concurrent {
+				checkNewCommitAbove(c, "C26|after-flush", db, []byte("b~new0"), fmt.Sprintf("M%d", i), info)
+				m.Put("b~new0", model.Ver{Ts: maxStoredVersion(db), Token: fmt.Sprintf("M%d", i), Len: 40})
+			}
 			if err := db.Close(); err != nil {
 				fail("close", err.Error())
 			}
@@ -232,7 +313,10 @@ func C26(c *core.Ctx) {
 		}
 		_ = db.Close()
 		_ = os.RemoveAll(dir)
-		c.Distinct(fmt.Sprintf("%s|managed=%v|incr=%v|streams=%d|done=%v", name, managed, incremental, min(nStreams, 4), done))
+		c.Distinct(fmt.Sprintf("%s|managed=%v|incr=%v|streams=%d|done=%v|concurrent=%v", name, managed, incremental, min(nStreams, 4), done, concurrent))
+		if concurrent {
+			c.Count("sw.concurrent_write_runs", 1)
+		}
 		if i < 3 {
 			c.Sample(info)
 		}
